@@ -307,14 +307,19 @@ impl PointerValue {
     pub fn slice(&self, pcx: &ParseContext, left: Option<usize>, right: usize) -> Option<Value> {
         let target_type = self.target_type?;
         let deref_size = pcx.type_graph.type_size_in_bytes(pcx.evcx, target_type)? as usize;
+        if deref_size == 0 {
+            // there is nothing to read and nothing to split into items
+            return None;
+        }
 
         self.value.and_then(|ptr| {
             let left = left.unwrap_or_default();
-            let base_addr = ptr as usize + deref_size * left;
+            let len = right.checked_sub(left)?;
+            let base_addr = (ptr as usize).checked_add(deref_size.checked_mul(left)?)?;
             let raw_data = weak_error!(debugger::read_memory_by_pid(
                 pcx.evcx.ecx.pid_on_focus(),
                 base_addr,
-                deref_size * (right - left)
+                deref_size.checked_mul(len)?
             ))?;
             let raw_data = bytes::Bytes::from(raw_data);
 
